@@ -46,6 +46,7 @@ def templates(tier, seed=0):
         'for [i, v] in [D(k)] {\n    print(v)\n}', '{\n    {\n        y := D(k)\n    }\n}', 'i := 0\nwhile i < 1 {\n    i += 1\n    D(k)\n}', 'y := 0\ny = D(k)', 'y := 1\ny += D(k)',
         'print({"v": D(k)})', 'print([0, D(k)])', 'print(lst[D(k):])', 'print(1 + D(k))', 'print(D(k) .. 1)', 'print([D(k)]..)', 'lst[D(k)] = 1', 'obj.a = D(k)', 'obj[$"a"] = D(k)',
         '[y, z] := [D(k), 1]', 'print($"${obj.f($"a")}${D(k)}")', 'if true {\n    print(0)\n} else if D(k) == 0 {\n    print(1)\n}', 'if false {\n    print(0)\n} else {\n    D(k)\n}',
+        'fn w2() {\n    return $"a${D(k)}"\n}\nprint(w2())', 'o7 := {"m": fn () {\n    s7 := $"${"x"}${D(k)}b"\n    return s7\n}}\nprint(o7.m())',
         'print(obj.f(D(k)))', 'print((fn () {\n    return D(k)\n})())', 'fn ww(a, ..r) {\n    return r\n}\nprint(ww(1, [D(k)]..))', 'print(D(k)->type())', 'print({"a": 1}[D(k)])',
     ]
     for di, d in enumerate(dsel):
